@@ -61,6 +61,7 @@ type TxCtx struct {
 	Check      *abci.ResponseCheckTx
 	Block, Idx int
 	Delivered  bool
+	Signers    map[string]bool // every account whose signature the transaction carries (bech32)
 	Stash      map[string]interface{}
 }
 
@@ -539,7 +540,8 @@ func (w *World) prepareTx(ts *TxSpec, idx int) *TxCtx {
 	if ts.Payer > 0 {
 		pAcc, pSeq = w.accNumSeq(w.DCtx(), AddrOf(w.Actors, ts.Payer-1))
 	}
-	bz, msgs, err := SignTx(w.Ref.App.TxConfig(), w.Actors, ts, accNum, seq, pAcc, pSeq)
+	dctx := w.DCtx()
+	bz, msgs, err := SignTxWith(w.Ref.App.TxConfig(), w.Actors, ts, accNum, seq, func(a sdk.AccAddress) (uint64, uint64) { return w.accNumSeq(dctx, a) }, pAcc, pSeq)
 	if err != nil {
 		// a message the client library itself refuses to build (never reaches the chain)
 		w.Ev("TXBUILD-ERR %v", err)
@@ -566,6 +568,20 @@ func (w *World) prepareTx(ts *TxSpec, idx int) *TxCtx {
 		}
 	}
 	canonMsgs(tx.Msgs)
+	tx.Signers = map[string]bool{signer.Addr.String(): true}
+	if ts.Multi {
+		if dec, err := w.Ref.App.TxConfig().TxDecoder()(bz); err == nil {
+			if st, ok := dec.(interface{ GetSigners() []sdk.AccAddress }); ok {
+				func() {
+					defer func() { _ = recover() }()
+					for _, a := range st.GetSigners() {
+						tx.Signers[a.String()] = true
+					}
+				}()
+			}
+		}
+		w.Fault("tx.multi_signer")
+	}
 	w.lastBytes[signer.Idx] = bz
 	return tx
 }
@@ -586,7 +602,7 @@ func (w *World) doCheck(tx *TxCtx) {
 		if ts.Payer > 0 {
 			pAcc, pSeq = w.accNumSeq(cctx, AddrOf(w.Actors, ts.Payer-1))
 		}
-		b2, _, err := SignTx(w.Ref.App.TxConfig(), w.Actors, ts, accNum, seq, pAcc, pSeq)
+		b2, _, err := SignTxWith(w.Ref.App.TxConfig(), w.Actors, ts, accNum, seq, func(a sdk.AccAddress) (uint64, uint64) { return w.accNumSeq(cctx, a) }, pAcc, pSeq)
 		if err != nil {
 			return
 		}
